@@ -89,14 +89,19 @@ def main():
                 cmd = f"go test -vet=off -count=1 -run '{run}' . 2>&1 | tail -12"
                 rc1, o1 = sh(cmd, cwd=os.path.join(wt, sub))
                 fail_with = "FAIL" in o1 or "panic:" in o1
-                sh(["git", "-C", wt, "stash", "-q"])
+                # (git stash is shared between worktrees of one repository: never use it here)
+                os.remove(dst)
+                saved = sh(["git", "-C", wt, "diff"])[1]
+                sh(["git", "-C", wt, "checkout", "--", "."])
                 shutil.copy(demo, dst)
                 rc2, o2 = sh(cmd, cwd=os.path.join(wt, sub))
                 pass_without = ("ok " in o2 or "PASS" in o2) and "FAIL" not in o2
                 os.remove(dst)
-                sh(["git", "-C", wt, "stash", "pop", "-q"])
-                if os.path.exists(dst):
-                    os.remove(dst)
+                pf = os.path.join(wt, ".seed_saved.diff")
+                with open(pf, "w") as f:
+                    f.write(saved)
+                sh(["git", "-C", wt, "apply", pf])
+                os.remove(pf)
                 out["demo_fails_with_patch"] = fail_with
                 out["demo_passes_without_patch"] = pass_without
                 if not (fail_with and pass_without):
